@@ -1919,6 +1919,43 @@ ctl('g11-sync-clock-period-from-a-request-header', 'C08', 'G11', 'websocket/real
 	return h.ClientSyncClockInterval
 }""", 'period-from-configuration', 'seed C08-26')
 
+ctl('q4-region-answered-from-memory', 'C20', 'Q4', 'modules/dagaz/dagaz.go',
+    """	regionQuadsProtobuf := m.state.region(NewVector3fFromProtobuf(req.Min), NewVector3fFromProtobuf(req.Max))
+""",
+    """	regionQuadsProtobuf := lastRegionAnswer
+	if regionQuadsProtobuf == nil {
+		regionQuadsProtobuf = m.state.region(NewVector3fFromProtobuf(req.Min), NewVector3fFromProtobuf(req.Max))
+	}
+""", 'HandleDagazGetRegion:answer-from-the-index', 'seed C20-26',
+    edits=[dict(file='modules/dagaz/dagaz.go',
+                old="""func (m *Module) Name() string {""",
+                new="""var lastRegionAnswer []*dagazpb.Quad
+
+func (m *Module) Name() string {""")])
+ctl('q11-cell-shortened-without-the-found-test', 'C20', 'Q11', 'modules/dagaz/grid_spatial_partition.go',
+    """	contains, index := arrayContains(grid.Grid[y][x], toRemove)
+	if contains {
+		grid.Grid[y][x][index] = grid.Grid[y][x][len(grid.Grid[y][x])-1]
+		grid.Grid[y][x] = grid.Grid[y][x][:len(grid.Grid[y][x])-1]
+	}""",
+    """	_, index := arrayContains(grid.Grid[y][x], toRemove)
+	grid.Grid[y][x][index] = grid.Grid[y][x][len(grid.Grid[y][x])-1]
+	grid.Grid[y][x] = grid.Grid[y][x][:len(grid.Grid[y][x])-1]""", 'cell-shrinks-by-what-was-found', 'seed C20-28')
+ctl('h3-action-refused-on-a-count-before-lookup', 'C16', 'H3', 'modules/vikja/vikja.go',
+    """	latestEntityAction, ok := m.state.EntityAction(entityAction.EntityId, entityAction.Name)
+""",
+    """	if len(m.state.EntityActions()) >= 4096 {
+		respond.Send(&hagallpb.ErrorResponse{
+			Type:      hagallpb.MsgType_MSG_TYPE_ERROR_RESPONSE,
+			Timestamp: timestamppb.Now(),
+			RequestId: req.RequestId,
+			Code:      hagallpb.ErrorCode_ERROR_CODE_TOO_LARGE,
+		})
+		return nil
+	}
+	latestEntityAction, ok := m.state.EntityAction(entityAction.EntityId, entityAction.Name)
+""", 'refused-before-lookup', 'seed C16-26')
+
 os.makedirs(OUT, exist_ok=True)
 bad = 0
 names = set()
